@@ -48,30 +48,6 @@ func gen(t *rapid.T) Case {
 
 var aliasRe = regexp.MustCompile(`[^A-Za-z0-9]`)
 
-func typeArgs(it *progen.Iface) [][]progen.Ty {
-	if len(it.TParams) == 0 {
-		return nil
-	}
-	var out [][]progen.Ty
-	for variant := 0; variant < 3; variant++ {
-		var tuple []progen.Ty
-		for i, tp := range it.TParams {
-			c := progen.FindConstraint(tp.Constraint)
-			switch {
-			case c.Key == "dep-slice":
-				prev := tuple[i-1]
-				tuple = append(tuple, progen.Ty{K: "slice", Elem: &prev})
-			case c.Key == "dep-generic":
-				prev := tuple[i-1]
-				tuple = append(tuple, progen.Ty{K: "named", Pkg: "alpha", Name: "GI", Args: []progen.Ty{prev}})
-			default:
-				tuple = append(tuple, c.Args[(variant+i)%len(c.Args)])
-			}
-		}
-		out = append(out, tuple)
-	}
-	return out
-}
 
 func run(c Case) *vh.Violation {
 	feats := c.Mod.Features()
@@ -116,7 +92,7 @@ func run(c Case) *vh.Violation {
 		var body strings.Builder
 		for ii := range p.Ifaces {
 			it := &p.Ifaces[ii]
-			for _, tuple := range typeArgs(it) {
+			for _, tuple := range genericArgs(it) {
 				parts := make([]string, len(tuple))
 				for i, a := range tuple {
 					parts[i] = progen.Render(a, q)
@@ -234,4 +210,11 @@ func reduce(c Case) []Case {
 
 func TestProp(t *testing.T) {
 	vh.Main(t, vh.Check[Case]{Gen: gen, Run: run, Reduce: reduce})
+}
+
+func genericArgs(it *progen.Iface) [][]progen.Ty {
+	if len(it.TParams) == 0 {
+		return nil
+	}
+	return progen.TypeArgs(it, 3)
 }
